@@ -575,7 +575,229 @@ theorem okWF_attrSetTop_key (fuel : Nat) (o : ObjId) (a : AttrId) (v : Option Na
             · cases hr
               exact ⟨hG.save, hS.1, hS.2⟩
 
-/-- every user call except the constructor and `obj.set(**kw)` (whose proofs are not finished): flush, delete with its cascades, every
+/-- schema well-formedness used for `obj.set(**kw)` and the constructor: the attributes of a composite key belong to the entity of the key -/
+def KeysWf (sch : Schema) : Prop := ∀ k a d, a ∈ sch.keyAttrs k → sch.decl a = some d → sch.entOfKey k = some d.ent
+
+theorem mem_attrsOf (sch : Schema) (a : AttrId) (d : AttrDecl) (h : sch.decl a = some d) : a ∈ sch.attrsOf d.ent := by
+  unfold Schema.attrsOf
+  refine List.mem_filter.mpr ⟨List.mem_range.mpr ?_, by simp [h]⟩
+  unfold Schema.decl at h
+  by_cases hlt : a < sch.attrs.length
+  · exact hlt
+  · rw [List.getElem?_eq_none (Nat.le_of_not_lt hlt)] at h; cases h
+
+theorem find_none_of_not_any (l : List (AttrId × Option Nat)) (a : AttrId) (h : (l.any fun p => p.1 == a) = false) :
+    l.find? (fun p => p.1 == a) = none := by
+  rw [List.find?_eq_none]
+  intro p hp
+  have := List.any_eq_false.mp h p hp
+  simpa using this
+
+theorem bind_eq_ok {r : Res} {g : St → Res} {st' : St} (h : r.bind g = .ok st') : ∃ st1, r = .ok st1 ∧ g st1 = .ok st' := by
+  cases r with
+  | ok st1 => exact ⟨st1, rfl, h⟩
+  | err e st1 => cases h
+
+/-- `Entity.set` -/
+theorem okWF_setMany (fuel : Nat) (o : ObjId) (kw : List (AttrId × Arg)) (st : St) (ho : o < st.store.n)
+    (hnd : (st.store.row o).status.isDel = false) (hwf : KeysWf sch)
+    (hkw : ∀ p, p ∈ kw → ∃ d, sch.decl p.1 = some d ∧ d.ent = (st.store.row o).ent) :
+    OkWF sch s0 st (setMany sch fuel o kw st) := by
+  intro st' hr g hok hdm
+  unfold setMany at hr
+  dsimp only at hr
+  generalize hav : (List.map (fun p => (p.1, argVal p.2)) (List.filter (fun p => !match sch.decl p.1 with | some d => decide (d.kind = Kind.coll) | none => false) kw)) = avdict at hr
+  generalize hcv : (List.map (fun p => (p.1, argItems p.2)) (List.filter (fun p => match sch.decl p.1 with | some d => decide (d.kind = Kind.coll) | none => false) kw)) = collAv at hr
+  have havd : ∀ p, p ∈ avdict → ∃ d, sch.decl p.1 = some d ∧ d.ent = (st.store.row o).ent := by
+    intro p hp
+    rw [← hav] at hp
+    obtain ⟨q, hq, rfl⟩ := List.mem_map.mp hp
+    exact hkw q (List.mem_filter.mp hq).1
+  have hmkspec : ∀ mk : Store × Bool, (mk = (if avdict.isEmpty = true then (st.store, false)
+        else mark o (List.filter (fun a => match sch.decl a with | some d => d.bit | none => false) (List.map (fun x => x.1) avdict)) true st.store)) →
+      MarkSpec st.store o mk.1 mk.2 ∧ (mk.1.row o).val = (st.store.row o).val ∧ mk.1.idx = st.store.idx ∧ mk.1.cidx = st.store.cidx := by
+    intro mk hmk
+    split at hmk
+    · rw [hmk]; exact ⟨⟨rfl, rfl, rfl, fun _ _ => rfl, ⟨rfl, rfl, rfl, rfl, rfl, rfl⟩, ⟨rfl, rfl, rfl⟩⟩, rfl, rfl, rfl⟩
+    · rw [hmk]; exact mark_spec _ _ _ _
+  generalize hmk : (if avdict.isEmpty = true then (st.store, false)
+        else mark o (List.filter (fun a => match sch.decl a with | some d => d.bit | none => false) (List.map (fun x => x.1) avdict)) true st.store) = mk at hr
+  obtain ⟨hspec, hv, hidx0, hcidx0⟩ := hmkspec mk hmk.symm
+  obtain ⟨s1, pop⟩ := mk
+  simp only at hspec hv hidx0 hcidx0 hr
+  have hst : (s1.row o).status = (st.store.row o).status ∨ ((s1.row o).status = .modified ∧ (st.store.row o).status.isDel = false) := by
+    have hq := hspec.q
+    cases pop
+    · simp only [Bool.false_eq_true, if_false] at hq; exact Or.inl hq.2.2
+    · simp only [if_true] at hq; exact Or.inr ⟨hq.2.2.2, hnd⟩
+  have base : Keep sch st.store s1 := by
+    apply Keep.of_rows hspec.n hidx0 hcidx0
+    intro p
+    by_cases hp : p = o
+    · rw [hp]; exact ⟨hst, fun a' _ => by rw [hv]⟩
+    · rw [hspec.other p hp]; exact ⟨Or.inl rfl, fun _ _ => rfl⟩
+  obtain ⟨hok1, hdm1⟩ := IdxOk.of_keep hok hdm base
+  have ho1 : o < s1.n := hspec.n ▸ ho
+  have hnd1 : (s1.row o).status.isDel = false := by
+    rcases hst with e | ⟨e, _⟩
+    · rw [e]; exact hnd
+    · rw [e]; rfl
+  -- a write of values that leaves key parts alone
+  have hwrite : ∀ (S0 : Store) (av : List (AttrId × Option Nat)), (∀ a, sch.isKeyPart a = true → (match av.find? (fun p => p.1 == a) with | some p => p.2 | none => (S0.row o).val a) = (S0.row o).val a) →
+      (SaveOk S0 → SaveOk (S0.upd o fun r => { r with val := fun a => match av.find? (fun p => p.1 == a) with | some p => p.2 | none => r.val a })) ∧
+      Keep sch S0 (S0.upd o fun r => { r with val := fun a => match av.find? (fun p => p.1 == a) with | some p => p.2 | none => r.val a }) := by
+    intro S0 av hkeep
+    refine tail_ok S0 _ rfl rfl rfl rfl (fun q => ?_)
+    by_cases hq : q = o
+    · rw [hq, upd_row_same]; exact ⟨rfl, rfl, fun a ha => hkeep a ha⟩
+    · rw [upd_row_other _ _ _ _ hq]; exact ⟨rfl, rfl, fun _ _ => rfl⟩
+  split at hr
+  · -- only plain int attributes: obj._vals_.update(avdict); return
+    rename_i hplain
+    cases hr
+    simp only [Bool.and_eq_true] at hplain
+    have hpl := hplain.2
+    obtain ⟨w1, w2⟩ := hwrite s1 avdict (by
+      intro a ha
+      cases hf : avdict.find? (fun p => p.1 == a) with
+      | none => rfl
+      | some p =>
+        exfalso
+        have hp := List.mem_of_find?_eq_some hf
+        have hpa : p.1 = a := by simpa using List.find?_some hf
+        have := List.all_eq_true.mp hpl p hp
+        obtain ⟨d, hd, _⟩ := havd p hp
+        rw [hd] at this
+        simp only [Bool.and_eq_true, Bool.not_eq_true', decide_eq_true_eq] at this
+        rw [hpa, ha] at this; cases this.2)
+    exact ⟨w1 (hspec.saveOk g.save), IdxOk.of_keep hok1 hdm1 w2⟩
+  · generalize hav2 : List.filter (fun p => (st.store.row o).val p.1 != p.2) avdict = av2 at hr
+    have hav2d : ∀ p, p ∈ av2 → ∃ d, sch.decl p.1 = some d ∧ d.ent = (st.store.row o).ent := by
+      intro p hp; rw [← hav2] at hp; exact havd p (List.mem_filter.mp hp).1
+    generalize hnv : (fun a => match List.find? (fun p => p.1 == a) av2 with | some p => p.2 | none => (st.store.row o).val a) = newVal at hr
+    generalize hsimple : List.filter (fun a => (match sch.decl a with | some d => d.unique | none => false) && av2.any fun p => p.1 == a)
+      (sch.attrsOf (st.store.row o).ent) = simple at hr
+    generalize hcomps : List.filter (fun k => (sch.keyAttrs k).any fun a => av2.any fun p => p.1 == a) (sch.ckeysOf (st.store.row o).ent) = comps at hr
+    have hsn : simple.Nodup := by rw [← hsimple]; exact List.Pairwise.filter _ (attrsOf_nodup sch _)
+    have hcn : comps.Nodup := by rw [← hcomps]; exact List.Pairwise.filter _ (ckeysOf_nodup sch _)
+    have hcl : ∀ k, k ∈ comps → k < sch.ckeys.length := by
+      intro k hk'; rw [← hcomps] at hk'; exact ckeysOf_lt sch _ k (List.mem_filter.mp hk').1
+    have huq : ∀ a, a ∈ simple → (match sch.decl a with | some d => d.unique | none => false) = true := by
+      intro a ha; rw [← hsimple] at ha
+      have := (List.mem_filter.mp ha).2
+      simp only [Bool.and_eq_true] at this
+      exact this.1
+    have hnvnone : ∀ a, (av2.any fun p => p.1 == a) = false → newVal a = (s1.row o).val a := by
+      intro a ha; rw [← hnv, hv]; simp only [find_none_of_not_any av2 a ha]
+    cases hmv : runMoves sch o simple comps newVal s1 with
+    | missing s2 m => rw [hmv] at hr; cases hr
+    | conflict s2 m => rw [hmv] at hr; cases hr
+    | done s2 m =>
+      rw [hmv] at hr
+      simp only at hr
+      have hfwd := runMoves_fwd sch o simple comps newVal s1 s2 m (hok1 o ho1 hnd1) hsn hcn hcl huq hmv
+      obtain ⟨hV, hdm2⟩ := fwd_idxOkV hfwd hok1 hdm1 ho1 hnd1
+        (fun a' ha' => huq a' (by simpa using ha'))
+        (fun k hk' => hcl k (by simpa using hk'))
+        (fun a' hu hna => by
+          apply hnvnone
+          cases hany : (av2.any fun p => p.1 == a')
+          · rfl
+          · exfalso
+            apply hna
+            simp only [List.append_nil, List.mem_reverse]
+            rw [← hsimple]
+            obtain ⟨p, hp, hpa⟩ := List.any_eq_true.mp hany
+            obtain ⟨d, hd, hde⟩ := hav2d p hp
+            have hpa' : p.1 = a' := by simpa using hpa
+            refine List.mem_filter.mpr ⟨?_, by simp [hu, hany]⟩
+            rw [← hpa', ← hde]; exact mem_attrsOf sch p.1 d hd)
+        (fun k hlt hnk => by
+          congr 1
+          apply List.map_congr_left
+          intro a ha
+          apply hnvnone
+          cases hany : (av2.any fun p => p.1 == a)
+          · rfl
+          · exfalso
+            apply hnk
+            simp only [List.append_nil, List.mem_reverse]
+            rw [← hcomps]
+            obtain ⟨p, hp, hpa⟩ := List.any_eq_true.mp hany
+            obtain ⟨d, hd, hde⟩ := hav2d p hp
+            have hpa' : p.1 = a := by simpa using hpa
+            refine List.mem_filter.mpr ⟨?_, ?_⟩
+            · unfold Schema.ckeysOf
+              refine List.mem_filter.mpr ⟨List.mem_range.mpr hlt, ?_⟩
+              rw [hwf k a d ha (hpa' ▸ hd), hde]; simp
+            · exact List.any_eq_true.mpr ⟨a, ha, hany⟩)
+      obtain ⟨f1, f2, f3, f4, f5, f6⟩ : MovesOk o s1 s2 m := by
+        have := runMoves_spec sch o simple comps newVal s1 ((hok o ho hnd).of_eq hidx0 hcidx0 hv) hsn hcn hcl huq
+        rw [hmv] at this; exact this
+      have hentry : Step s0 st ((st.setStore s2).log (.setMany o (st.store.row o).status (st.store.row o).wbits pop m)) := by
+        refine step_markEntry _ none ho (hspec.frame f1 f2 f3 f4 f5) (by simp only [fixVal]; rw [f2, hv])
+          (fun t => by simp only [undo1]; rw [upd_fixNone]) ?_
+        intro _ T e1 e2
+        obtain ⟨g1, g2⟩ := f6 T e1 e2
+        exact ⟨g1.trans hidx0, g2.trans hcidx0⟩
+      obtain ⟨st3, hrN, htail⟩ := bind_eq_ok hr
+      have hstepN : Step s0 ((st.setStore s2).log (.setMany o (st.store.row o).status (st.store.row o).wbits pop m)) (Res.ok st3).st := by
+        rw [← hrN]
+        apply step_bind
+        · apply step_iter
+          intro p s
+          split
+          · split
+            · split
+              · exact step_updateReverse _ _ _ _ _ _ _ _
+              · exact Step.refl _ _
+            · exact Step.refl _ _
+          · exact Step.refl _ _
+        · intro st1 _
+          apply step_iter
+          intro p s
+          exact step_setColl (fun x st => step_delete _ x st) true o p.1 p.2 s _ rfl (Or.inl rfl)
+      have hkeepN : KeepR sch ((st.setStore s2).log (.setMany o (st.store.row o).status (st.store.row o).wbits pop m)) (Res.ok st3) := by
+        rw [← hrN]
+        apply keepR_bind
+        · apply keepR_iter
+          intro p s
+          split
+          · split
+            · split
+              · exact keepR_updateReverse _ _ _ _ _ _ _ _
+              · exact KeepR.err _ _ _ _
+            · exact KeepR.ok (Keep.refl _ _)
+          · exact KeepR.ok (Keep.refl _ _)
+        · intro st1 _
+          apply keepR_iter
+          intro p s
+          exact keepR_setColl (fun x st => keepR_delete _ x st) true o p.1 p.2 s
+      have hr := htail
+      simp only [Res.ok.injEq] at hr
+      · have hk3 : Keep sch s2 st3.store := hkeepN st3 rfl
+        have hG3 := hstepN.good (hentry.good g)
+        obtain ⟨hV3, hdm3⟩ := IdxOkV.of_keep hV hdm2 hk3
+        rw [← hr]
+        have hS := idxOk_after_write hV3 hdm3 (st3.store.upd o fun r => { r with val := fun a => match av2.find? (fun p => p.1 == a) with | some p => p.2 | none => r.val a }) rfl rfl rfl
+          (fun p hp => by rw [upd_row_other _ _ _ _ hp]; exact ⟨rfl, fun _ _ => rfl⟩)
+          (by
+            rw [upd_row_same]
+            refine ⟨rfl, fun a ha => ?_⟩
+            show (match av2.find? (fun p => p.1 == a) with | some p => p.2 | none => (st3.store.row o).val a) = newVal a
+            rw [← hnv]
+            cases hf : av2.find? (fun p => p.1 == a) with
+            | some p => simp only [hf]
+            | none =>
+              simp only [hf]
+              rw [hk3.scal o a ha, f2, base.scal o a ha])
+        refine ⟨?_, hS.1, hS.2⟩
+        refine SaveOk.of_eq hG3.save rfl rfl (fun q => ?_)
+        by_cases hq : q = o
+        · rw [hq]; simp [St.setStore, Store.upd, Res.st]
+        · simp [St.setStore, Store.upd, hq, Res.st]
+
+/-- every user call except the constructor (whose proof is not finished): flush, delete with its cascades, every
     collection call, every single attribute assignment (key attributes included) -/
 def covered : Op → Bool
   | .create _ _ _ => false
